@@ -367,3 +367,52 @@ pub fn not_replayable() {
 pub fn was_not_replayable() -> bool {
     NOT_REPLAYABLE.load(Ordering::SeqCst)
 }
+
+// ---------------------------------------------------------------------------
+// running code while a thread is being torn down
+
+struct TeardownProbe {
+    f: Option<Box<dyn FnOnce() -> Option<String>>>,
+    out: std::sync::Arc<Mutex<Option<Result<Option<String>, String>>>>,
+}
+
+impl Drop for TeardownProbe {
+    fn drop(&mut self) {
+        if let Some(f) = self.f.take() {
+            let r = std::panic::catch_unwind(std::panic::AssertUnwindSafe(f));
+            *self.out.lock().unwrap() = Some(r.map_err(|e| {
+                if let Some(s) = e.downcast_ref::<String>() {
+                    s.clone()
+                } else if let Some(s) = e.downcast_ref::<&str>() {
+                    s.to_string()
+                } else {
+                    "panic".to_string()
+                }
+            }));
+        }
+    }
+}
+
+thread_local! {
+    static TEARDOWN: std::cell::RefCell<Option<TeardownProbe>> = std::cell::RefCell::new(None);
+}
+
+/// Runs `warmup` on a fresh thread and then `f` from the destructor of a thread-local object
+/// that was registered BEFORE `warmup` ran, i.e. after every thread-local that `warmup` caused
+/// to be created has already been destroyed. Returns what `f` returned (Some(description) = a
+/// wrong result), Err(message) if it panicked, or Err if the destructor never ran.
+pub fn run_at_thread_exit<W, F>(warmup: W, f: F) -> Result<Option<String>, String>
+where
+    W: FnOnce() + Send + 'static,
+    F: FnOnce() -> Option<String> + Send + 'static,
+{
+    let out = std::sync::Arc::new(Mutex::new(None));
+    let out2 = out.clone();
+    let h = std::thread::spawn(move || {
+        TEARDOWN.with(|t| *t.borrow_mut() = Some(TeardownProbe { f: Some(Box::new(f)), out: out2 }));
+        warmup();
+    });
+    let _ = h.join();
+    let r = out.lock().unwrap().take();
+    r.unwrap_or_else(|| Err("the thread-exit probe did not run".to_string()))
+}
